@@ -1462,12 +1462,64 @@ func c09RunTrace(t *testing.T, r *Run, lines []string, g *Rng, nOps int) {
 	r.Trace()
 }
 
+// directed histories run before the random walks on every seed: the shortest replays of the known
+// findings (so that each keeps being re-checked) and a few scripted happy paths
+func c09Directed() [][]string {
+	reset := c09Params().line()
+	ra0 := []string{reset, "create_rollapp r0 minbond=1", "fund a0 amt=100000", "create_seq a0 r0 bond=3000 denom=ok"}
+	up := func(start, n int) string {
+		var roots, tss []string
+		for i := 0; i < n; i++ {
+			roots = append(roots, strconv.Itoa(start+i+1))
+			tss = append(tss, strconv.Itoa(10*(start+i)))
+		}
+		return fmt.Sprintf("update r0 by=a0 start=%d num=%d rev=0 last=0 bdlen=%d seqerr=- ts=all drs=1 rooterr=- roots=%s tss=%s", start, n, n, strings.Join(roots, ","), strings.Join(tss, ","))
+	}
+	honest := "lc_create chain=r0 tl=0 tp=0 ub=0 dr=0 specs=1,2 path=1,2 h=2 root=3 ts=20 nv=1"
+	cat := func(xs ...[]string) []string {
+		var out []string
+		for _, x := range xs {
+			out = append(out, x...)
+		}
+		return out
+	}
+	return [][]string{
+		// truncated parameter lists pass the parameter check
+		cat(ra0, []string{up(1, 3), "lc_create chain=r0 tl=0 tp=0 ub=0 dr=0 specs=1 path=- h=2 root=3 ts=20 nv=1", "lc_setcanon c0"}),
+		// store order of consensus states ("1-10" < "1-8"): the bogus consensus state at 8 is never looked at
+		cat(ra0, []string{up(1, 8), up(9, 1), up(10, 1), "lc_create chain=r0 tl=0 tp=0 ub=0 dr=0 specs=1,2 path=1,2 h=8 root=99 ts=80 nv=1002",
+			"lc_update c0 w=top h=10 root=11 ts=100 nv=1 ps=x1 pd=x1 rev=0 trusted=8 vals=x1:1:1 tvals=x1:1:1", "lc_setcanon c0"}),
+		// a header that contradicts the posted descriptor, signed by the rollapp's sequencer, naming a sequencer of another rollapp as proposer
+		cat(ra0, []string{"create_rollapp r1 minbond=1", "fund a3 amt=100000", "create_seq a3 r1 bond=3000 denom=ok", up(1, 4), honest, "lc_setcanon c0",
+			"lc_update c0 w=top h=4 root=99 ts=40 nv=1 ps=a3 pd=a3 rev=0 trusted=2 vals=a0:10:1,a3:1:0 tvals=a0:1:1",
+			"lc_update c0 w=top h=4 root=99 ts=40 nv=1 ps=a0 pd=a0 rev=0 trusted=2 vals=a0:1:1 tvals=a0:1:1"}),
+		// MsgSubmitMisbehaviour inside authz.MsgExec freezes the canonical client
+		cat(ra0, []string{up(1, 3), honest, "lc_setcanon c0",
+			"lc_misb c0 k=submit h=4 root=5 ts=40 nv=1 ps=a0 pd=a0 rev=0 trusted=2 vals=a0:1:1 tvals=a0:1:1",
+			"lc_misb c0 k=submitNested h=4 root=5 ts=40 nv=1 ps=a0 pd=a0 rev=0 trusted=2 vals=a0:1:1 tvals=a0:1:1"}),
+		// a channel-open-ack with a bad proof makes a never-opened channel canonical
+		cat(ra0, []string{up(1, 3), honest, "lc_setcanon c0", "lc_chaninit c0", "lc_chaninit c0", "lc_chanack ch0 ibc=0", "lc_chanack ch1 ibc=1"}),
+		// fork resolution when the first update of the new revision is the proposer's last block
+		cat(ra0, []string{"fund a1 amt=100000", "fund a2 amt=100000", "create_seq a1 r0 bond=2000 denom=ok", "create_seq a2 r0 bond=1000 denom=ok", up(1, 3),
+			"bridge r0 h=1", honest, "lc_setcanon c0", "fraud r0 auth=gov h=3 rev=0 punish=- rewardee=-", "optin a1 1", "optin a2 1", "unbond a1",
+			"begin dt=3000000000", "end fail=-",
+			"update r0 by=a1 start=3 num=1 rev=1 last=1 bdlen=1 seqerr=- ts=all drs=1 rooterr=- roots=4 tss=30"}),
+		// happy path: designation, honest optimistic header, agreeing state update, channel
+		cat(ra0, []string{up(1, 3), honest, "lc_setcanon c0",
+			"lc_update c0 w=top h=5 root=6 ts=50 nv=1 ps=a0 pd=a0 rev=0 trusted=2 vals=a0:1:1 tvals=a0:1:1", up(4, 3),
+			"lc_chaninit c0", "lc_chanack ch0 ibc=1"}),
+	}
+}
+
 func TestC09(t *testing.T) {
 	r := NewRun(t, "C09")
 	defer r.Close()
 	if lines := ReplayLines(); lines != nil {
 		c09RunTrace(t, r, lines, NewRng(1), 0)
 		return
+	}
+	for _, script := range c09Directed() {
+		c09RunTrace(t, r, script, NewRng(1), 0)
 	}
 	nTraces, nOps := r.N(120, 1500), r.N(110, 140)
 	for tr := 0; tr < nTraces; tr++ {
